@@ -1,0 +1,134 @@
+//go:build verif
+
+/*
+SPDX-License-Identifier: Apache-2.0
+*/
+
+package presentproof
+
+import (
+	"github.com/hyperledger/aries-framework-go/component/storageutil/mem"
+	"github.com/hyperledger/aries-framework-go/pkg/didcomm/common/service"
+)
+
+// VerifResolveRow says, for one shape of message, which identifier the service takes as protocol instance id and
+// the persisted state of which identifier it consults: "id", "thid", "pthid", "fresh" (generated / start) or "err".
+type VerifResolveRow struct {
+	Msg      string
+	V3       bool
+	Outbound bool
+	HasID    bool
+	HasThid  bool
+	HasPthid bool
+	PIID     string
+	State    string
+}
+
+const (
+	verifIDVal    = "verif-ID"
+	verifThidVal  = "verif-THID"
+	verifPthidVal = "verif-PTHID"
+)
+
+func verifShape(t string, v3, hasID, hasThid, hasPthid bool) service.DIDCommMsgMap {
+	m := service.DIDCommMsgMap{}
+
+	if v3 {
+		m["type"] = t
+		m["body"] = map[string]interface{}{}
+
+		if hasID {
+			m["id"] = verifIDVal
+		}
+
+		if hasThid {
+			m["thid"] = verifThidVal
+		}
+
+		if hasPthid {
+			m["pthid"] = verifPthidVal
+		}
+	} else {
+		m["@type"] = t
+
+		if hasID {
+			m["@id"] = verifIDVal
+		}
+
+		th := map[string]interface{}{}
+		if hasThid {
+			th["thid"] = verifThidVal
+		}
+
+		if hasPthid {
+			th["pthid"] = verifPthidVal
+		}
+
+		if len(th) > 0 {
+			m["~thread"] = th
+		}
+	}
+
+	m["_internal_metadata_"] = map[string]interface{}{}
+
+	return m
+}
+
+func verifKind(piID string) string {
+	switch piID {
+	case verifIDVal:
+		return "id"
+	case verifThidVal:
+		return "thid"
+	case verifPthidVal:
+		return "pthid"
+	}
+
+	return "fresh"
+}
+
+// VerifResolve enumerates message shapes through getCurrentInternalDataAndPIID on a service whose store holds a
+// different state for each of the three identifiers.
+func VerifResolve() []VerifResolveRow {
+	st, err := mem.NewProvider().OpenStore(Name)
+	if err != nil {
+		panic(err)
+	}
+
+	s := &Service{store: st}
+	states := map[string]string{stateNameRequestSent: "id", stateNameRequestReceived: "thid", StateNameDone: "pthid", stateNameStart: "fresh"}
+
+	_ = s.saveInternalData(verifIDVal, &internalData{StateName: stateNameRequestSent})       //nolint:errcheck
+	_ = s.saveInternalData(verifThidVal, &internalData{StateName: stateNameRequestReceived}) //nolint:errcheck
+	_ = s.saveInternalData(verifPthidVal, &internalData{StateName: StateNameDone})           //nolint:errcheck
+
+	var rows []VerifResolveRow
+
+	types := VerifMsgTypes()
+
+	for _, m := range []string{"propose", "request", "presentation", "ack", "problem-report"} {
+		for vi, v3 := range []bool{false, true} {
+			for _, out := range []bool{false, true} {
+				for _, hasID := range []bool{false, true} {
+					for _, hasThid := range []bool{false, true} {
+						for _, hasPthid := range []bool{false, true} {
+							msg := verifShape(types[m][vi], v3, hasID, hasThid, hasPthid)
+							row := VerifResolveRow{Msg: m, V3: v3, Outbound: out, HasID: hasID, HasThid: hasThid, HasPthid: hasPthid}
+
+							piID, data, e := s.getCurrentInternalDataAndPIID(msg)
+							if e != nil {
+								row.PIID, row.State = "err", "err"
+							} else {
+								row.PIID, row.State = verifKind(piID), states[data.StateName]
+							}
+
+							rows = append(rows, row)
+						}
+					}
+				}
+			}
+		}
+	}
+
+	return rows
+}
